@@ -3,6 +3,10 @@ package checks
 import (
 	"bytes"
 	"fmt"
+	"os"
+	"os/exec"
+	"path/filepath"
+	"regexp"
 	"strings"
 
 	"github.com/tormoder/fit"
@@ -20,7 +24,7 @@ func registerC18() {
 		Rule: "PRNG streams of record / lap / session / segment_lap / event messages under every file type hosting them (Activity, Course, ActivitySummary, Segment) with " +
 			"component sources forced on the wire (all-ones, high-bit, PRNG patterns, rollovers of accumulated sources, destinations also on the wire), 1-3 files per case decoded " +
 			"back to back and once more as a chain; every field of every message is compared with the reference component rules (ref/components.go, accumulators zero at the start " +
-			"of each file); deviations are matched against one predictor of the listed defective behaviour, anything else is a violation; every file is also decoded with a wrong CRC, without its CRC bytes, or with a trailing record of an undefined local type: the File returned with the error is judged like the intact one; non-trivial: at least one component " +
+			"of each file); deviations are matched against one predictor of the listed defective behaviour, anything else is a violation; every file is also decoded with a wrong CRC, without its CRC bytes, or with a trailing record of an undefined local type: the File returned with the error is judged like the intact one; plus, per run, the expandComponents functions the generator writes for two bundled workbooks with and without -verbose (same text required; how many equal the tree's own functions is reported); non-trivial: at least one component " +
 			"expansion was compared; distinct by stream digest",
 		Assume: []string{
 			"enhanced_speed is not compared when compressed_speed_distance expands in the same record (speed is then both a destination and a source; the statement does not say which wins)",
@@ -31,7 +35,80 @@ func registerC18() {
 			{Name: "streams", N: func(t string) uint64 { return tierN(t, 60000, 1000000) }, Run: c18Case},
 			{Name: "long", N: func(t string) uint64 { return tierN(t, 2, 8) }, Run: c18Long},
 		},
+		Main: c18Generated,
 	})
+}
+
+var c18ExpandRe = regexp.MustCompile(`(?ms)^func \(x \*(\w+)\) expandComponents\(\) \{\n.*?^\}\n`)
+
+// c18Generated: the expansion code whose behaviour the families above observe is generated. The
+// generator is run on the two newest bundled workbooks, plain and with its debugging output on
+// (-verbose): the expandComponents functions it writes must be the same text in both runs - what
+// is logged is no part of what is generated - and the number of them that are, character for
+// character, the functions of the tree under test is reported.
+func c18Generated(c *lib.Ctx) {
+	repo := RepoDir()
+	wd := filepath.Join(lib.OutDir(), "work", "C18")
+	os.MkdirAll(wd, 0o755)
+	bin := filepath.Join(wd, "fitgen")
+	b := exec.Command("go", "build", "-o", bin, "./cmd/fitgen")
+	b.Dir = repo
+	if out, err := b.CombinedOutput(); err != nil {
+		c.Inconclusive("cannot build fitgen: %v: %s", err, tail(out, 300))
+		return
+	}
+	defer os.RemoveAll(wd)
+	checkedIn := map[string]string{}
+	if src, err := os.ReadFile(filepath.Join(repo, "messages.go")); err == nil {
+		for _, m := range c18ExpandRe.FindAllStringSubmatch(string(src), -1) {
+			checkedIn[m[1]] = m[0]
+		}
+	}
+	for _, ver := range []string{"21.40", "20.43"} {
+		xlsx := filepath.Join(repo, "cmd/fitgen/internal/profile/testdata", ver+".xlsx")
+		if _, err := os.Stat(xlsx); err != nil {
+			continue
+		}
+		var bodies [2]map[string]string
+		for k, flags := range [][]string{{"-sdk", ver}, {"-verbose", "-sdk", ver}} {
+			out := filepath.Join(wd, fmt.Sprintf("gen-%s-%d", ver, k))
+			os.MkdirAll(out, 0o755)
+			cmd := exec.Command(bin, append(append([]string{}, flags...), xlsx, out)...)
+			cmd.Dir = wd
+			if o, err := cmd.CombinedOutput(); err != nil {
+				c.Violation(nil, "fitgen %v on the bundled %s workbook failed: %v: %s", flags, ver, err, tail(o, 300))
+				return
+			}
+			src, err := os.ReadFile(filepath.Join(out, "messages.go"))
+			if err != nil {
+				c.Violation(nil, "fitgen %v wrote no messages.go", flags)
+				return
+			}
+			bodies[k] = map[string]string{}
+			for _, m := range c18ExpandRe.FindAllStringSubmatch(string(src), -1) {
+				bodies[k][m[1]] = m[0]
+			}
+			c.Eval()
+		}
+		if len(bodies[0]) == 0 {
+			c.Violation(nil, "fitgen on the %s workbook generated no expandComponents function", ver)
+			return
+		}
+		for name, plain := range bodies[0] {
+			if v, ok := bodies[1][name]; !ok || v != plain {
+				c.Violation([]byte(plain), "workbook %s: (*%s).expandComponents as generated with -verbose differs from the one generated without it:\n%s", ver, name, v)
+				return
+			}
+			if checkedIn[name] == plain {
+				c.Count("generated_expansion_functions_identical_to_the_tree_under_test", 1)
+			}
+			c.Count("generated_expansion_functions_compared_across_flag_sets", 1)
+		}
+		if len(bodies[1]) != len(bodies[0]) {
+			c.Violation(nil, "workbook %s: %d expandComponents functions without -verbose, %d with it", ver, len(bodies[0]), len(bodies[1]))
+			return
+		}
+	}
 }
 
 var c18FileTypes = []byte{4, 4, 6, 20, 34}
